@@ -537,7 +537,11 @@ class FormulaMaterializer(metaclass=FormulaMaterializerMeta):
                                     )
                                     for factor in scoped_term.factors
                                 ),
-                                scale=existing_term.scale * scoped_term.scale,
+                                # Both terms belong to the span of the same
+                                # formula term and already carry its literal
+                                # scale, so the merged term keeps that scale
+                                # (rather than the product of the two).
+                                scale=scoped_term.scale,
                             ),
                         )
                     )
